@@ -1,5 +1,63 @@
-import Gobptree.Ops
+/-
+  C08 — B+tree shape invariants hold whenever the tree is quiescent (sequential half).
+
+  `TreeInv lt t` = `TreeWF lt t ∧ Linked t.depth none t.root`. `WF` (Proofs/WF.lean)
+  is literally the clause list of the property: keys of every node strictly ascending;
+  every separator ≤ every key beneath it and > every key beneath its left neighbour
+  (children carry the interval `[separator, next separator)`); parallel arrays of equal
+  length; at most `order` entries; every non-root node at least `order/2`; an inner root
+  at least 2. All leaves at one depth is a typing fact of `Node K V d`. `Linked` is the
+  leaf chain: each leaf's `next` is its in-order successor, the last one's is nil.
+-/
+import Gobptree.Proofs.RunOk
+
 namespace Gobptree
-theorem C08_placeholder : True := trivial
+
+variable {K V : Type} {lt : K → K → Bool} {P : Params K}
+
+/-- **C08 (sequential).** After every operation of every history on a fresh tree of any
+    even order ≥ 4 the shape invariant and the leaf chain hold. -/
+theorem C08_shape_seq (hp : ParamsOk lt P) (h4 : 4 ≤ P.order) (ops : List (Op K V)) :
+    ∃ (t' : Tree K V) (outs : List (Out V)),
+      (Tree.new P.order : Tree K V).run P ops = .ok (t', outs) ∧ TreeInv lt t' ∧ t'.order = P.order := by
+  obtain ⟨hinv, _⟩ := new_ok (lt := lt) (K := K) (V := V) P.order
+  obtain ⟨t', heq, hinv', hto, _⟩ := run_ok hp ops (Tree.new P.order) rfl hinv (fun _ _ _ => h4)
+  exact ⟨t', _, heq, hinv', hto⟩
+
+/-- **C08 (order 2, partial).** Capacity, ordering, separators and chain for order 2
+    (any even order ≥ 2) over histories without Delete. -/
+theorem C08_order2_partial (hp : ParamsOk lt P) (ops : List (Op K V))
+    (hnodel : ∀ op ∈ ops, op.isDelete = false) :
+    ∃ (t' : Tree K V) (outs : List (Out V)),
+      (Tree.new P.order : Tree K V).run P ops = .ok (t', outs) ∧ TreeInv lt t' ∧ t'.order = P.order := by
+  obtain ⟨hinv, _⟩ := new_ok (lt := lt) (K := K) (V := V) P.order
+  obtain ⟨t', heq, hinv', hto, _⟩ := run_ok hp ops (Tree.new P.order) rfl hinv
+    (fun op hop hd => by rw [hnodel op hop] at hd; exact absurd hd (by decide))
+  exact ⟨t', _, heq, hinv', hto⟩
+
+/-- **C08, the invariant is inductive** (so it holds after every single operation of a
+    history, not only at its end). -/
+theorem C08_step_preserves (hp : ParamsOk lt P) (t : Tree K V) (hto : t.order = P.order)
+    (hinv : TreeInv lt t) (op : Op K V) (hdel : op.isDelete = true → 4 ≤ P.order) :
+    ∃ (t' : Tree K V) (o : Out V), t.step P op = .ok (t', o) ∧ TreeInv lt t' ∧ t'.order = P.order := by
+  obtain ⟨t', heq, hinv', hto', _⟩ := step_ok hp t hto hinv op hdel
+  exact ⟨t', _, heq, hinv', hto'⟩
+
+/-- **C08, unpacked for the leaves:** every leaf of a tree satisfying the invariant has
+    strictly ascending keys, as many values as keys, at most `order` entries and (unless
+    it is the root) at least `order/2`; all stored keys of the tree are strictly ascending
+    is `C08`'s "index lookups and the leaf chain agree" (see `WF_pairs_bounds`). -/
+theorem C08_root_leaf (t : Tree K V) (hd : t.depth = 0) (hinv : TreeInv lt t) :
+    ∃ l : Leaf K V, Node.leaves t.root = [l] ∧ Sorted lt l.keys ∧ l.keys.length = l.vals.length ∧
+      l.keys.length ≤ t.order ∧ l.next = none := by
+  obtain ⟨order, depth, root, nextId⟩ := t
+  simp only at hd; subst hd
+  obtain ⟨⟨a, b, c, _, _⟩, hL⟩ := hinv
+  exact ⟨root, rfl, a, b, c, hL⟩
+
 end Gobptree
-#print axioms Gobptree.C08_placeholder
+
+#print axioms Gobptree.C08_shape_seq
+#print axioms Gobptree.C08_order2_partial
+#print axioms Gobptree.C08_step_preserves
+#print axioms Gobptree.C08_root_leaf
